@@ -20,6 +20,12 @@ index j and one arbitrary cell c (Skolem constants): j < k => cell(addr1 + j*ste
 == f(old); c not of the form addr1 + j'*step with j' < k => cell(c) == old.  The
 second part is stated through a witness-free characterisation: c is untouched if
 c < addr1, or c >= addr1 + k*step, or (c - addr1) mod step != 0.
+
+Unpaged form with a *symbolic* step (1..65535): `mod` by an unknown is avoided - the
+Skolem cell's distance is q_c*step + r_c with 0 <= r_c < step (ghost quotient and
+remainder), "on the grid" is r_c == 0, (k+1)*step is carried as k*step + step, and
+instances of two lemmas proved over the integers (arithmetic_lemmas: div_unique,
+mul_mono) are added as facts.  The bank-prefixed form keeps the explicit step list.
 """
 import ast
 import os
@@ -136,26 +142,42 @@ def poke_case(rep, prop, case):
         def cell_of(a):
             return (a % 0x4000) if paged else a
 
-        def untouched_at(arr, k, c):
-            """cell c (an address in the unpaged case, a bank offset in the paged one) is not among the first k poked cells => unchanged"""
+        sym = not isinstance(p.step, int)
+
+        def rel_of(c):
             if paged:
                 cc = c & 0x3FFF
-                rel = (cc - (p.lo & 0x3FFF)) & 0x3FFF       # distance from the first poked offset, modulo the bank size
-            else:
-                cc = c
-                rel = cc - p.lo
-            if isinstance(p.step, int):
+                return cc, (cc - (p.lo & 0x3FFF)) & 0x3FFF       # distance from the first poked offset, modulo the bank size
+            return c, c - p.lo
+
+        if sym:
+            # Euclidean division of the Skolem cell's distance by the symbolic step: rel == qc*step + rc, 0 <= rc < step
+            # (such qc, rc exist for every rel >= 0 and step >= 1); "on the grid" is then rc == 0 - no mod by an unknown
+            p.qc = SV(z3.BitVec('q_c', W), 0, 65535)
+            p.rc = SV(z3.BitVec('r_c', W), 0, 65535)
+            _, rel_c = rel_of(p.c)
+            p.facts.append(z3.And(p.qc.t >= 0, p.qc.t <= 65535, p.rc.t >= 0, p.rc.t < sv(p.step).t))
+            p.facts.append(z3.Implies(sv(rel_c).t >= 0, sv(rel_c).t == sv(p.qc * p.step + p.rc).t))
+
+        def untouched_at(arr, k, c, pk=None, grid=None):
+            """cell c (an address in the unpaged case, a bank offset in the paged one) is not among the first k poked cells => unchanged"""
+            cc, rel = rel_of(c)
+            if pk is None:
+                pk = k * p.step
+            if grid is not None:
+                on_grid = grid
+            elif isinstance(p.step, int):
                 on_grid = True if p.step == 1 else cmpop('==', rel % p.step, 0)
             else:
                 on_grid = SB(z3.URem(z3.If(sv(rel).t >= 0, sv(rel).t, z3.BitVecVal(0, W)), sv(p.step).t) == 0)
-            hit = and_(cmpop('>=', rel, 0), cmpop('<', rel, k * p.step), on_grid)
+            hit = and_(cmpop('>=', rel, 0), cmpop('<', rel, pk), on_grid)
             return or_(hit, SB(z3.Select(arr, sv(cc).t) == z3.Select(p.mem.arr0, sv(cc).t)))
 
-        def mem_inv(arr, k):
+        def mem_inv(arr, k, pk=None):
             aj = p.lo + p.j * p.step
             old_j = SV(z3.Select(p.mem.arr0, sv(cell_of(aj)).t), 0, 255)
             done = or_(not_(and_(cmpop('<', p.j, k), cmpop('<=', aj, 65535))), SB(z3.Select(arr, sv(cell_of(aj)).t) == sv(f_spec(op, old_j, p.v)).t))
-            return and_(done, untouched_at(arr, k, p.c))
+            return and_(done, untouched_at(arr, k, p.c, pk, SB(p.rc.t == 0) if sym else None))
 
         def loop(e, node_):
             fr = e.frames[-1]
@@ -174,19 +196,30 @@ def poke_case(rep, prop, case):
             e.oblige('range_is_addr1_to_addr2_inclusive', and_(cmpop('==', r_lo, p.lo), cmpop('==', r_hi, p.hi + 1), cmpop('==', r_st, p.step)), node_)
             e.assume(cmpop('<=', p.lo + k * p.step, p.hi + p.step))
             p.mem.arr = arr
-            e.assume(mem_inv(arr, k))
+            pk = k * p.step
+            if sym:
+                # instances of the two arithmetic lemmas (proved once over the integers, see arithmetic_lemmas; all
+                # products stay below 2**33, so the W-bit products are the integer ones):
+                #   div_unique(qc, rc, k):  qc*step + rc == k*step  =>  rc == 0 and qc == k
+                #   mul_mono(j, k):         j < k  =>  j*step + step <= k*step;      j == k  =>  j*step == k*step
+                qs, js = p.qc * p.step, p.j * p.step
+                e.assume(SB(z3.Implies(sv(qs + p.rc).t == sv(pk).t, z3.And(p.rc.t == 0, p.qc.t == sv(k).t))))
+                e.assume(SB(z3.Implies(p.j.t < sv(k).t, sv(js + p.step).t <= sv(pk).t)))
+                e.assume(SB(z3.Implies(p.j.t == sv(k).t, sv(js).t == sv(pk).t)))
+            e.assume(mem_inv(arr, k, pk))
             # the universally quantified 'untouched' part of the hypothesis, instantiated at the cell poked next
-            e.assume(untouched_at(arr, k, cell_of(p.lo + k * p.step)))
+            # (its distance is k*step itself, so it is on the grid whatever the step)
+            e.assume(untouched_at(arr, k, cell_of(p.lo + pk), pk, True if sym else None))
             e.fresh_n += 1
             if e.decide(SB(z3.Bool('iterate!%d' % e.fresh_n))):
-                a = p.lo + k * p.step
+                a = p.lo + pk
                 e.assume(cmpop('<', a, r_hi))
                 e.assign(node_.target, a)
                 e.exec_block(node_.body)
-                e.oblige('inv.preserve', mem_inv(p.mem.arr, k + 1), node_)
+                e.oblige('inv.preserve', mem_inv(p.mem.arr, k + 1, (pk + p.step) if sym else None), node_)
                 raise PathEnd()
             # exit: k is the number of terms of the range
-            e.assume(not_(cmpop('<', p.lo + k * p.step, r_hi)))
+            e.assume(not_(cmpop('<', p.lo + pk, r_hi)))
             p.ghost = (k, arr)
         eng.loop_invariants = {(q, i): loop for i in loop_ix}
         val = {'^': '^1', '+': '+1', '': '1'}[op]
@@ -223,15 +256,46 @@ def _poke_worker(args):
     return sub.export()
 
 
+def arithmetic_lemmas(rep, prop):
+    """The two facts about products with an unknown step that the symbolic-step invariant uses, proved over the
+    mathematical integers (z3, nonlinear integer arithmetic); poke_case assumes instances of them in the bit-vector VCs,
+    where every product stays below 2**33 < 2**(W-1), so the W-bit product is the integer product."""
+    import time
+    q, k, s_, r, j = z3.Ints('q k s r j')
+    fn = 'skoolkit.snapshot.poke[arithmetic lemmas for a symbolic step]'
+    for name, hyp, concl in (
+            ('div_unique', z3.And(s_ >= 1, r >= 0, r < s_, q >= 0, k >= 0, q * s_ + r == k * s_), z3.And(r == 0, q == k)),
+            ('mul_mono', z3.And(s_ >= 1, j >= 0, j < k), j * s_ + s_ <= k * s_)):
+        sol = z3.Solver()
+        sol.set('timeout', 60000)
+        sol.add(hyp, z3.Not(concl))
+        t0 = time.time()
+        res = sol.check()
+        oid = '%s/%s/lemma.%s' % (prop, fn, name)
+        rep.add(oid, 'proved' if res == z3.unsat else 'unknown' if res == z3.unknown else 'failed', 'z3-nia', time.time() - t0, fn)
+        rep.sample({'id': oid, 'result': str(res), 'backend': 'z3-nia', 'seconds': round(time.time() - t0, 4)})
+        if res == z3.sat:
+            rep.errors.append('arithmetic lemma %s is refuted by %s: the symbolic-step invariant of the poke kernel is wrong (checker error, not a violation)' % (name, sol.model()))
+    # the hypotheses must be satisfiable (a contradictory lemma would prove anything)
+    sol = z3.Solver()
+    sol.add(s_ >= 1, r >= 0, r < s_, q >= 0, k >= 0, q * s_ + r == k * s_, j >= 0, j < k)
+    if sol.check() != z3.sat:
+        rep.errors.append('arithmetic lemma hypotheses are unsatisfiable')
+
+
 def check_poke(rep, prop='C09', tier='quick'):
     from multiprocessing import Pool
     from props import common
     steps = QUICK_STEPS if tier == 'quick' else STEPS
     cases = poke_cases(steps)
+    # unpaged ranges: the step itself is symbolic (1..65535) - the explicit steps remain for the bank-prefixed form
+    cases += [(op, 3, False, 'sym') for op in ('^', '+', '')]
+    arithmetic_lemmas(rep, prop)
     with Pool(common.NCPU) as pool:
         for part in pool.imap_unordered(_poke_worker, [(c, prop) for c in cases]):
             rep.merge(part)
-    rep.bounded.append({'function': 'skoolkit.snapshot.poke (step field of the address range)', 'contract': 'kernel contract for an explicit step', 'bound': 'steps %s; every other parameter symbolic (an arbitrary symbolic step makes the invariant non-linear: mod and product of two unknowns)' % (steps,), 'evaluations': len(steps)})
+    rep.bounded.append({'function': 'skoolkit.snapshot.poke (step field of a bank-prefixed address range `p:a-b-step`)', 'contract': 'kernel contract for an explicit step', 'bound': 'steps %s; every other parameter symbolic. The unpaged form `a-b-step` is proved for every step 1..65535 (P: invariant over the Euclidean quotient of the cell distance, two integer lemmas), see functions_under_contract' % (steps,), 'evaluations': len(steps)})
+    rep.assume('poke kernel, symbolic step: the lemmas div_unique and mul_mono are proved over the mathematical integers and used as facts about W-bit products (W = 40; every product is below 2**33, so no wrap-around); the Euclidean quotient and remainder of the Skolem cell distance are ghost constants whose existence is the division theorem')
     rep.assume('poke kernel: the value is a byte (0..255), 0 <= addr1, addr2 <= 65535, 1 <= step; a bank-prefixed range spans fewer than 0x4000 addresses (beyond that offsets repeat and are poked more than once); '
                'spec-string splitting, _get_page and get_int_param are outside the slice')
 
@@ -244,12 +308,21 @@ def replay_poke(vals, kind):
     for t in range(300):
         is128 = t % 2 == 1
         a1 = vals.get('addr1', 16384) if t < 2 else rnd.randrange(16384, 65536)
-        cnt = rnd.randrange(0, 60)
+        cnt = rnd.randrange(0, 60) if t % 5 else rnd.randrange(0, 65536)
         a2 = min(65535, a1 + cnt)
-        step = rnd.choice((1, 1, 2, 3, 7))
+        step = rnd.choice((1, 1, 2, 3, 7, rnd.randrange(1, 65536)))
         v = vals.get('value', 1) & 255 if t < 2 else rnd.randrange(256)
         op = rnd.choice(('', '^', '+'))
         nf = rnd.randrange(3)
+        if t < 12 and isinstance(vals.get('step'), int) and vals['step'] >= 1:
+            # the solver's own range first: its addresses and step as they are, then the step with longer ranges
+            a1 = min(65535, max(0, vals.get('addr1', 16384)))
+            a2 = min(65535, max(0, vals.get('addr2', a1))) if t < 6 else 65535
+            if t >= 9:
+                a1 = 16384
+            step, nf, op = vals['step'], 2, ('', '^', '+')[t % 3]
+            if is128 and a2 - a1 >= 0x4000:
+                a2 = a1 + 0x3FFF
         if is128:
             snap = [rnd.randrange(256) for _ in range(0x20000)]
             m = S.Memory(snapshot=snap, page=rnd.randrange(8))
